@@ -57,24 +57,37 @@ def encodeInt (i : Int) : List Char :=
   | .ofNat n => natDigits (n + 1) n
   | .negSucc n => '-' :: natDigits (n + 2) (n + 1)
 
+/-! jq-literal flavour (`to_jq`, format/json/jq.jq:2-45 with the default, compact options): exactly
+    the JSON text, except that an object key matching `^[a-zA-Z_][a-zA-Z_0-9]*$` is written
+    without quotes (`_key`).  `jq = false`: JSON (`tojson`), `jq = true`: `to_jq`. -/
+
+def isIdentStart (c : Char) : Bool := ('a' ≤ c && c ≤ 'z') || ('A' ≤ c && c ≤ 'Z') || c == '_'
+def isIdentChar (c : Char) : Bool := isIdentStart c || ('0' ≤ c && c ≤ '9')
+
+def isIdent : List Char → Bool
+  | [] => false
+  | c :: cs => isIdentStart c && cs.all isIdentChar
+
+def keyText (jq : Bool) (k : List Char) : List Char := if jq && isIdent k then k else encodeString k
+
 mutual
-  def encode : JV → List Char
+  def encode (jq : Bool) : JV → List Char
     | .null => ['n', 'u', 'l', 'l']
     | .bool true => ['t', 'r', 'u', 'e']
     | .bool false => ['f', 'a', 'l', 's', 'e']
     | .num i => encodeInt i
     | .float => ['0', '.', '5']
     | .str s => encodeString s
-    | .arr l => '[' :: encodeElems l ++ [']']
-    | .obj kvs => '{' :: encodeMembers kvs ++ ['}']
-  def encodeElems : List JV → List Char
+    | .arr l => '[' :: encodeElems jq l ++ [']']
+    | .obj kvs => '{' :: encodeMembers jq kvs ++ ['}']
+  def encodeElems (jq : Bool) : List JV → List Char
     | [] => []
-    | [v] => encode v
-    | v :: rest => encode v ++ ',' :: encodeElems rest
-  def encodeMembers : List (List Char × JV) → List Char
+    | [v] => encode jq v
+    | v :: rest => encode jq v ++ ',' :: encodeElems jq rest
+  def encodeMembers (jq : Bool) : List (List Char × JV) → List Char
     | [] => []
-    | [(k, v)] => encodeString k ++ ':' :: encode v
-    | (k, v) :: rest => encodeString k ++ ':' :: encode v ++ ',' :: encodeMembers rest
+    | [(k, v)] => keyText jq k ++ ':' :: encode jq v
+    | (k, v) :: rest => keyText jq k ++ ':' :: encode jq v ++ ',' :: encodeMembers jq rest
 end
 
 /-! ### canonical objects -/
@@ -219,8 +232,12 @@ def parseNumber (cs : List Char) : PR (Option Int) :=
   | [] => .err
   | c :: r => if c == '-' then parseNumberBody true r else parseNumberBody false (c :: r)
 
+def takeIdent : List Char → List Char × List Char
+  | [] => ([], [])
+  | c :: cs => if isIdentChar c then let (a, b) := takeIdent cs; (c :: a, b) else ([], c :: cs)
+
 mutual
-  def parseValue : Nat → List Char → PR JV
+  def parseValue (jq : Bool) : Nat → List Char → PR JV
     | 0, _ => .err
     | fuel + 1, cs =>
       match skipWS cs with
@@ -239,12 +256,12 @@ mutual
           | .unmodelled => .unmodelled
         else if c == '[' then
           match skipWS r with
-          | c2 :: r' => if c2 == ']' then .ok (.arr []) r' else parseElems fuel r []
-          | [] => parseElems fuel r []
+          | c2 :: r' => if c2 == ']' then .ok (.arr []) r' else parseElems jq fuel r []
+          | [] => parseElems jq fuel r []
         else if c == '{' then
           match skipWS r with
-          | c2 :: r' => if c2 == '}' then .ok (.obj []) r' else parseMembers fuel r []
-          | [] => parseMembers fuel r []
+          | c2 :: r' => if c2 == '}' then .ok (.obj []) r' else parseMembers jq fuel r []
+          | [] => parseMembers jq fuel r []
         else if c == 'n' then
           match r with
           | 'u' :: 'l' :: 'l' :: r' => .ok .null r'
@@ -259,31 +276,37 @@ mutual
           | _ => .err
         else .err
   /-- after `[` or `,`: a value, then `,` or `]` -/
-  def parseElems : Nat → List Char → List JV → PR JV
+  def parseElems (jq : Bool) : Nat → List Char → List JV → PR JV
     | 0, _, _ => .err
     | fuel + 1, cs, acc =>
-      match parseValue fuel cs with
+      match parseValue jq fuel cs with
       | .ok v rest =>
         match skipWS rest with
-        | ',' :: r => parseElems fuel r (v :: acc)
+        | ',' :: r => parseElems jq fuel r (v :: acc)
         | ']' :: r => .ok (.arr (v :: acc).reverse) r
         | _ => .err
       | .err => .err
       | .unmodelled => .unmodelled
-  /-- after `{` or `,`: a string key, `:`, a value, then `,` or `}` -/
-  def parseMembers : Nat → List Char → List (List Char × JV) → PR JV
+  /-- after `{` or `,`: a key (a string literal; for jq also a bare identifier), `:`, a value,
+      then `,` or `}` -/
+  def parseMembers (jq : Bool) : Nat → List Char → List (List Char × JV) → PR JV
     | 0, _, _ => .err
     | fuel + 1, cs, acc =>
       match skipWS cs with
-      | '"' :: r =>
-        match parseStringBody (r.length + 1) r [] with
+      | [] => .err
+      | c :: r =>
+        let key : PR (List Char) :=
+          if c == '"' then parseStringBody (r.length + 1) r []
+          else if jq && isIdentStart c then .ok (takeIdent (c :: r)).1 (takeIdent (c :: r)).2
+          else .err
+        match key with
         | .ok k rest =>
           match skipWS rest with
           | ':' :: r2 =>
-            match parseValue fuel r2 with
+            match parseValue jq fuel r2 with
             | .ok v rest2 =>
               match skipWS rest2 with
-              | ',' :: r3 => parseMembers fuel r3 (insertKV k v acc)
+              | ',' :: r3 => parseMembers jq fuel r3 (insertKV k v acc)
               | '}' :: r3 => .ok (.obj (insertKV k v acc)) r3
               | _ => .err
             | .err => .err
@@ -291,15 +314,21 @@ mutual
           | _ => .err
         | .err => .err
         | .unmodelled => .unmodelled
-      | _ => .err
 end
 
 /-- `fromjson`: one value, then only white space (json.go:44-70) -/
-def parse (cs : List Char) : PR JV :=
-  match parseValue (cs.length + 1) cs with
+def parseWith (jq : Bool) (cs : List Char) : PR JV :=
+  match parseValue jq (cs.length + 1) cs with
   | .ok v rest => if (skipWS rest).isEmpty then .ok v [] else .err
   | .err => .err
   | .unmodelled => .unmodelled
+
+def parse (cs : List Char) : PR JV := parseWith false cs
+
+/-- `from_jq` (format/json/jq.jq:47-90) restricted to the part of jq's grammar that `to_jq` emits:
+    constant literals written as JSON, with bare identifier object keys.  (The real function runs
+    gojq's full parser; only `to_jq | from_jq` is compared, never from_jq on arbitrary programs.) -/
+def parseJq (cs : List Char) : PR JV := parseWith true cs
 
 /-! ### compact wire syntax of the line protocol (no spaces):
     n | t | f | i<decimal> | s<hex of UTF-8, - for empty> | [v,v,…] | {s<hex>:v,…}   -/
